@@ -169,7 +169,7 @@ def parse_edges(out):
 # --------------------------------------------------------------------------------------
 # Scenarios
 # --------------------------------------------------------------------------------------
-SPECIAL_PAYLOADS = ["bin", "utf8", "empty", "attrs", "big"]
+SPECIAL_PAYLOADS = ["bin", "utf8", "empty", "attrs", "big", "ws"]
 
 
 def op_to_steps(o, idx, special=False):
